@@ -23,6 +23,9 @@
                            the sealing trait's impls are for a closed set of crate types
      (20 8 trait super)    a client implements `trait` for a type that does not implement `super`
                            (super as written in the trait header)
+     (20 11 type)          a value of the CONCRETE type (e.g. TensorRange<f64, &Tensor<f64>>) is used after
+                           the referent of a reference it stores is gone: rejected iff `stores_ref`
+     (20 12 type)          the referent is mutated / moved / reassigned / borrowed again while the value is alive
    Result: (0 (codes...)) = the set of rustc error codes the model allows; () = must compile.
            (1 ()) = the query names something that is not declared in the crate. *)
 From Coq Require Import List ZArith NArith Bool Strings.Byte Ascii.
@@ -124,6 +127,20 @@ Definition run_c20 (args : list sx) : sx :=
       | None => bad_case
       end
   | [SZ 7%Z] => codes []
+  | [SZ 11%Z; t] =>
+      match dty 12 t with
+      | Some t => if resolved decls t
+                  then (if stores_ref decls t then codes [597; 505; 716; 515]%Z else codes [])
+                  else unknown
+      | None => bad_case
+      end
+  | [SZ 12%Z; t] =>
+      match dty 12 t with
+      | Some t => if resolved decls t
+                  then (if stores_ref decls t then codes [499; 502; 505; 506; 596]%Z else codes [])
+                  else unknown
+      | None => bad_case
+      end
   | [SZ 10%Z; p; t; m; s] =>
       match dstr p, dstr t, dstr m, dstr s with
       | Some p, Some t, Some m, Some s =>
